@@ -13,7 +13,7 @@ import (
 )
 
 func init() {
-	for _, f := range []string{"C01", "C02", "C05", "C06", "C07", "C10", "C11", "C12", "C13e", "C15", "C17w", "smoke"} {
+	for _, f := range []string{"C01", "C02", "C05", "C06", "C07", "C10", "C11", "C12", "C13e", "C15", "C17w", "C18", "smoke"} {
 		f := f
 		registerScenario(f, func(w *world) { scenarioData(w, f) })
 	}
@@ -131,6 +131,13 @@ func scenarioData(w *world, flavor string) {
 		xo.reliableOrderedOnly = false
 		xo.dcep = true
 		tail = true
+	case "C18":
+		o.smallBuffers = w.ctape.intn(2) == 0
+		o.blockWriteOK = true
+		xo.slowReaders = w.ctape.intn(2) == 0
+		xo.reliableOrderedOnly = w.ctape.intn(3) != 0
+		xo.deadlines = true
+		xo.oddWrites = true
 	case "C12", "C13e", "C17w":
 		xo.reliableOrderedOnly = w.ctape.intn(2) == 0
 		xo.dcep = true
@@ -292,6 +299,17 @@ func runXfer(w *world, x *xfer, mon *wireMon, partition, tail bool) {
 			// the senders believe everything was acknowledged, yet reliable messages are missing
 			prop, class = "C07", "later-message-blocked"
 		}
+		// C18: an empty write must not disturb later messages of its stream
+		for _, d := range x.dirs {
+			if d.emptyWrites == 0 {
+				continue
+			}
+			for _, m := range d.msgs {
+				if m.done && m.err == nil && m.delivered == 0 && m.size > 0 {
+					prop, class = "C18", "empty-write-disturbs-stream"
+				}
+			}
+		}
 		if class == "later-message-blocked" {
 			// discriminate the recorded findings by what is true of the blocked streams
 			for _, d := range append(append([]*xferDir{}, x.dirs...), x.tails...) {
@@ -451,6 +469,18 @@ func (x *xfer) finalChecks(mon *wireMon) {
 				} else {
 					w.probe("pr-message-skipped")
 				}
+			}
+		}
+	}
+	// C18: rejected / failed calls had no effect: nothing of them on the wire, nothing read
+	for _, m := range x.odd {
+		if m.delivered != 0 {
+			w.violate("C18", "rejected-call-delivered", "%s stream %d: a %s write (n=%d err=%v) was delivered to the peer", w.eps[m.from].name, m.sid, m.odd, m.n, m.err)
+		}
+		for _, ti := range mon.s[m.from].sent {
+			if ti.msg == m {
+				w.violate("C18", "rejected-call-on-wire", "%s stream %d: a %s write (n=%d err=%v) put TSN %d on the wire", w.eps[m.from].name, m.sid, m.odd, m.n, m.err, ti.tsn)
+				break
 			}
 		}
 	}
